@@ -83,8 +83,12 @@ def _reified_shape_trees(c, n, model):
 
 def _start(c, jn):
     r = c.rng.random()
-    if r < 0.45:
+    if r < 0.35:
         return None
+    if r < 0.45:
+        # an edited or transported graph: its markers are equal to, not identical with, the module's (deepcopy: what |, - and
+        # reconfigure do to their operands; pickle: a graph that crossed a process boundary)
+        return {'copied': c.rng.choice(['deepcopy', 'pickle', 'minus-nothing'])}
     if r < 0.75:
         return {'strip': True}
     if r < 0.9:
@@ -115,7 +119,8 @@ def check_C12(c):
             ops = c.rng.choice(cli_order) if c.rng.random() < 0.3 else c.rng.choice(progs)
             if _q(c, False, True) and c.rng.random() < 0.2:
                 ops = c.rng.sample(OPS, 4)
-            jobs.append(('tr_program', dict(node=jn, ops=ops, model=model, start=st)))
+            jobs.append(('tr_program', dict(node=jn, ops=ops, model=model, start=st,
+                                            between=c.rng.choice([None, None, None, 'deepcopy', 'pickle']))))
     for model in ('amr', 'miniamr'):
         for jn in _reified_shape_trees(c, _q(c, 250, 6000), model):
             ops = c.rng.choice([['dereify_edges'], ['dereify_edges', 'reify_edges'], ['dereify_edges', 'reify_edges'], ['dereify_edges', 'reify_attributes'],
